@@ -27,5 +27,10 @@ Proof. exact (accept_within gen_failed_one gen_failed_one_spec). Qed.
    magnitudes, any schedule) is within the limits of every state that declares them *)
 Theorem C11_path : forall c T s x t, Forall sstep_ok s -> all_within (lims c) (fst (gloop c T x t s)).
 Proof. intros c T s x t Hs. eapply chain_within. apply (loop_walk gen_failed_one gen_failed_one_spec c T s x t Hs). Qed.
+(* ... and with NO hypothesis on the schedule at all (arbitrary rates, clocks, tau, counts and any deterministic drift of
+   explicit ODE terms): whatever is recorded passed the limit test *)
+Theorem C11_path_any : forall c T s x t, all_within (lims c) (fst (gloop c T x t s)).
+Proof. exact (loop_within gen_failed_one gen_failed_one_spec). Qed.
+Print Assumptions C11_path_any.
 Print Assumptions C11_path.
 Print Assumptions C11_reject.
